@@ -13,6 +13,8 @@ for f in spec/*.tla; do
   fi
 done
 rm -f /tmp/sany.$$
+# binding demonstration: faithful traces accepted, corrupted ones rejected
+if [ $fail = 0 ]; then tools/selftest.py || fail=1; fi
 rmdir .work 2>/dev/null || true
 [ $fail = 0 ] && echo "setup ok"
 exit $fail
